@@ -109,25 +109,13 @@ Proof. exact serve_readonly. Qed.
 Print Assumptions C19_readonly_without_write.
 
 (* ================= 4. a request answered with an error (4.xx, 5.xx — in particular 4.00 for every rejected path) has no
-   effect: every file-system entry is as before (the temporary file of a PUT whose rename fails is removed again) —
-   PROVIDED writing the body into the temporary file succeeds (fs_disk_full = false).  When that write fails the code
-   leaves the temporary file behind (finding C19:error-with-effect:tempfile-left-after-failed-write, see
-   C19_failed_write_leaves_tempfile and C19_error_has_no_effect_refuted_when_write_fails below) *)
-Theorem C19_error_has_no_effect : forall self, root_ok (fs_root self) -> fs_disk_full self = false ->
-  forall req st, tmp_fresh self req (st_fs st) ->
+   effect: every file-system entry is as before.  The temporary file of a failed PUT is removed again, whether the rename
+   fails or writing the body fails (full disk: fs_disk_full may be true — since commit bc47b66 the write sits inside the
+   try block whose except clause unlinks; before, this theorem needed fs_disk_full = false and was refuted without it) *)
+Theorem C19_error_has_no_effect : forall self, root_ok (fs_root self) -> forall req st, tmp_fresh self req (st_fs st) ->
   match serve self req st with (st', _, r) => 128 <= rcode r -> fs_equiv (st_fs st') (st_fs st) end.
 Proof. exact serve_error_no_effect. Qed.
 Print Assumptions C19_error_has_no_effect.
-(* the defective branch, exactly: disk full, non-empty body, temporary file creatable -> the request fails with
-   OSError(ENOSPC) (answered 5.00) and the file system has gained the (empty) temporary file *)
-Theorem C19_failed_write_leaves_tempfile : forall self req p st,
-  fs_disk_full self = true -> payload req <> [] -> has_nul (parent p) = false ->
-  resolve (st_fs st) (child (parent p) (fs_tmpname self)) = inr (parts (child (parent p) (fs_tmpname self))) ->
-  lookup (st_fs st) (parts (child (parent p) (fs_tmpname self))) = None ->
-  out (store_file self req p) st =
-    (with_fs st (aset (st_fs st) (parts (child (parent p) (fs_tmpname self))) (NFile [])), inl (XOSError ENOSPC)).
-Proof. exact store_file_failed_write. Qed.
-Print Assumptions C19_failed_write_leaves_tempfile.
 
 (* ================= 5. a file fetched block by block, with any block size exponent, is byte-identical to its content *)
 Theorem C19_blockwise_read_exact : forall self req p c szx fuel st,
@@ -165,7 +153,9 @@ Print Assumptions C19_block1_spool_has_no_effect.
 Theorem C19_block1_last_block_assembles : forall req st num szx acc,
   opt_block1 req = Some (num, false, szx) -> num <> 0 ->
   spool_find (st_spool st) (block_key req) = Some acc -> blk_start num szx = blen acc ->
-  exists st', feed_and_take req st = ((st', []), inr (with_payload req (acc ++ payload req))) /\ st_fs st' = st_fs st.
+  block1_invalid false szx (payload req) = false ->
+  exists st', feed_and_take req st = ((st', []), inr (with_payload req (acc ++ payload req))) /\ st_fs st' = st_fs st
+              /\ st_spool st' = spool_remove (st_spool st) (block_key req).      (* the completed body leaves the spool *)
 Proof. exact feed_last. Qed.
 Print Assumptions C19_block1_last_block_assembles.
 Theorem C19_block1_gap_rejected : forall req st num more szx acc,
@@ -174,6 +164,12 @@ Theorem C19_block1_gap_rejected : forall req st num more szx acc,
   exists e, feed_and_take req st = ((st, []), inl e) /\ (e = XIncomplete \/ e = XBadRequest).
 Proof. exact feed_gap. Qed.
 Print Assumptions C19_block1_gap_rejected.
+(* a block whose payload does not fit its block size (not full with M set; larger than the block size when final) is 4.00 *)
+Theorem C19_block1_bad_size_rejected : forall req st num more szx acc,
+  opt_block1 req = Some (num, more, szx) -> num <> 0 -> spool_find (st_spool st) (block_key req) = Some acc ->
+  block1_invalid more szx (payload req) = true -> feed_and_take req st = ((st, []), inl XBadRequest).
+Proof. exact feed_oversize. Qed.
+Print Assumptions C19_block1_bad_size_rejected.
 
 (* ================= non-vacuity and witnesses *)
 Definition ex_root : list (list Z) := [S "/srv/root"].
@@ -206,13 +202,16 @@ Example C19_relative_root_nonvacuous :
                               EStat {| anchor := 0; parts := [S "new"] |}]
       /\ lookup (st_fs st') [S "new"] = Some (NFile [1; 2; 3])).
 Proof. vm_compute. repeat split. Qed.
-(* Block1: three blocks are assembled and written as one file; a block that does not continue the body is answered 4.08
-   and nothing is written; 2.31 responses have no effect *)
+(* Block1: three blocks are assembled and written as one file; a block for an unknown (or already completed) body is
+   answered 4.08, a block of the wrong size 4.00, and nothing is written; 2.31 responses have no effect *)
 Example C19_block1_nonvacuous :
   let '(st', outs) := run ex_self ex_st [IOne (ex_blk [S "b"] (0, true, 0) (pattern 16 1)); IOne (ex_blk [S "b"] (1, true, 0) (pattern 16 2));
                                         IOne (ex_blk [S "b"] (2, false, 0) [5; 6]); IOne (ex_blk [S "c"] (1, false, 0) [5; 6]);
-                                        IOne (ex_blk [S "b"] (1, true, 0) [5; 6])] in
-  map (map (fun o => (rcode (snd o), length (fst o)))) outs = [[(95, 0%nat)]; [(95, 0%nat)]; [(68, 4%nat)]; [(136, 0%nat)]; [(128, 0%nat)]]
+                                        IOne (ex_blk [S "b"] (1, true, 0) [5; 6]);                 (* the completed body has left the spool *)
+                                        IOne (ex_blk [S "d"] (0, true, 0) (pattern 16 1)); IOne (ex_blk [S "d"] (1, true, 0) [5; 6]);   (* short non-final block *)
+                                        IOne (ex_blk [S "d"] (1, false, 0) (pattern 17 3))] in                                     (* oversize final block *)
+  map (map (fun o => (rcode (snd o), length (fst o)))) outs
+    = [[(95, 0%nat)]; [(95, 0%nat)]; [(68, 4%nat)]; [(136, 0%nat)]; [(136, 0%nat)]; [(95, 0%nat)]; [(128, 0%nat)]; [(128, 0%nat)]]
   /\ lookup (st_fs st') [S "srv"; S "root"; S "b"] = Some (NFile (pattern 16 1 ++ pattern 16 2 ++ [5; 6]))
   /\ lookup (st_fs st') [S "srv"; S "root"; S "c"] = None.
 Proof. vm_compute. repeat split. Qed.
@@ -257,12 +256,12 @@ Example C19_tmp_fresh_nonvacuous : tmp_fresh ex_self (ex_req 3 [S "new"]) ex_fs.
 Proof. intros p H. vm_compute in H. injection H as <-. vm_compute. reflexivity. Qed.
 
 (* round 5 *)
-(* the unconditional "an error response has no effect" is REFUTED by a PUT on a full disk: 5.00 and a new entry *)
-Example C19_error_has_no_effect_refuted_when_write_fails :
+(* a PUT on a full disk: 5.00, the temporary file is created and removed again, the file system is as before *)
+Example C19_failed_write_leaves_nothing :
   let '(st', effs, r) := serve (with_full ex_self) (ex_req 3 [S "new"]) ex_st in
-  rcode r = 160 /\ lookup (st_fs st') [S "srv"; S "root"; S "tmpabcd1234"] = Some (NFile [])
-  /\ lookup (st_fs ex_st) [S "srv"; S "root"; S "tmpabcd1234"] = None
-  /\ effs = [EOpenDirW {| anchor := 1; parts := [S "srv"; S "root"] |}; ECreate {| anchor := 1; parts := [S "srv"; S "root"; S "tmpabcd1234"] |}].
+  rcode r = 160 /\ st_fs st' = ex_fs
+  /\ effs = [EOpenDirW {| anchor := 1; parts := [S "srv"; S "root"] |}; ECreate {| anchor := 1; parts := [S "srv"; S "root"; S "tmpabcd1234"] |};
+             EUnlink {| anchor := 1; parts := [S "srv"; S "root"; S "tmpabcd1234"] |}].
 Proof. vm_compute. repeat split. Qed.
 (* escaping requests: every method, with and without write permission, Observe:0, a completing Block1 block *)
 Example C19_escaping_nonvacuous :
